@@ -51,6 +51,9 @@ def bounds(tier):
         "max_states_per_config": 60000,
         "real_seeds": 3 if q else 8,
         "real_stream_len": 5 if q else 6,
+        "long_stream_len": 600 if q else 3000,
+        "long_chunks": [1, 3],
+        "long_streams": "every periodic utility stream with period <= 2 over the alphabet (real generator), bound judged at every prefix",
     }
 
 
@@ -247,6 +250,49 @@ def explore_config(acc, subj, budget, w, b, tier, seed):
                 acc.traces_validated += 1
 
 
+def long_streams(subj, b):
+    """all periodic utility streams with period <= 2 (one symbol for the baseline strategies) x chunk sizes"""
+    alphabet = ["a"] if subj.kind == "strategy" else list("lmhn")
+    pats = [(a,) for a in alphabet] + [(a, c) for a in alphabet for c in alphabet if a != c]
+    return [(p, k) for p in pats for k in b["long_chunks"]]
+
+
+def run_long(subj, budget, w, pattern, chunk, n, seed):
+    """one long linear history with the real generator; returns the (kind, detail) list of the first violating step"""
+    obj = _make(subj, budget, w, seed) if subj.bound == "window" or subj.kind == "manager" else subj.make(budget, seed)
+    ref = Ref(subj, budget, w)
+    pos = 0
+    steps = 0
+    while pos < n:
+        ch = tuple(pattern[(pos + j) % len(pattern)] for j in range(min(chunk, n - pos)))
+        try:
+            idx = step(subj, obj, ch)
+        except Exception as e:
+            return steps, [("exception:" + type(e).__name__, "%s at stream position %d" % (str(e)[:150], pos))]
+        steps += 1
+        v = judge_transition(subj, budget, w, ref, obj, ch, idx)
+        if v:
+            return steps, v
+        pos += len(ch)
+    return steps, []
+
+
+def explore_long(acc, subj, budget, w, b, seed):
+    """counters, accumulated estimates and window bookkeeping far beyond the horizon of the state graph: the bound of the statement must
+    hold at every prefix of long periodic streams as well (overflowing or drifting counters only show after hundreds of grants)"""
+    cfg = {"subject": subj.name, "budget": budget, "w": w}
+    n = b["long_stream_len"]
+    for pattern, chunk in long_streams(subj, b):
+        steps, v = run_long(subj, budget, w, pattern, chunk, n, seed * 10)
+        acc.transitions += steps
+        acc.case((subj.name, budget, w, "long", pattern, chunk))
+        acc.traces_validated += 1
+        for kind, detail in v:
+            acc.violation(subj.name, kind, detail + " [periodic stream %s x %d, chunks of %d, real seed %d]" % ("".join(pattern), n, chunk, seed * 10),
+                          dict(cfg, stream="".join(pattern), length=n, chunk=chunk), {"long_stream": True},
+                          dict(cfg, mode="long", seed=seed * 10, pattern=list(pattern), chunk=chunk, length=n), size=5000 + n)
+
+
 def run_shard(spec):
     T.install()
     acc = Acc()
@@ -254,6 +300,7 @@ def run_shard(spec):
     with warnings.catch_warnings():
         warnings.simplefilter("ignore")
         explore_config(acc, subj, spec["budget"], spec["w"], bounds(spec["tier"]), spec["tier"], spec["seed"])
+        explore_long(acc, subj, spec["budget"], spec["w"], bounds(spec["tier"]), spec["seed"])
     return acc
 
 
@@ -264,6 +311,9 @@ def replay(spec):
     out = []
     with warnings.catch_warnings():
         warnings.simplefilter("ignore")
+        if spec.get("mode") == "long":
+            _, v = run_long(subj, budget, w, tuple(spec["pattern"]), int(spec["chunk"]), int(spec["length"]), int(spec["seed"]))
+            return [(subj.name, k) for k, _ in v]
         if spec.get("mode") == "real":
             obj = _make(subj, budget, w, int(spec["seed"])) if subj.bound == "window" or subj.kind == "manager" else subj.make(budget, int(spec["seed"]))
             ref = Ref(subj, budget, w)
